@@ -208,7 +208,8 @@ func (s *state) Add(ctx context.Context, transaction Transaction, payload []byte
 	}, stoabs.OnRollback(func() {
 		log.Logger().Warn("Reloading the XOR and IBLT trees due to a DB transaction Rollback")
 		verifhook.Point("dag.add.rollback", transaction.Ref())
-		s.loadState(ctx)
+		// do not use ctx: the rollback may be caused by ctx being cancelled/expired, the reload must happen regardless
+		s.loadState(context.Background())
 	}), stoabs.AfterCommit(func() {
 		verifhook.Point("dag.add.committed", transaction.Ref(), txAdded)
 		if txAdded {
